@@ -762,6 +762,39 @@ type encLockable struct {
 func (p *encLockable) Lock()   { p.Locks++ }
 func (p *encLockable) Unlock() { p.Unlocks++ }
 
+// Mutually recursive struct types: a department points to an edge (which holds no strings
+// itself) that points to the parent department.
+type encDept struct {
+	Parent *encEdge
+	Name   string `class:"secret"`
+	Mail   string `class:"sensitive"`
+	Note   string
+	Title  string `class:"public"`
+}
+
+type encEdge struct {
+	Dept   *encDept
+	Weight int
+}
+
+type encReport struct {
+	Root *encDept
+	N    int
+}
+
+func (g *encGen) dept(where string, depth int) *encDept {
+	d := &encDept{
+		Name:  g.canary(g.treatFor("secret", true), where+".Name"),
+		Mail:  g.canary(g.treatFor("sensitive", true), where+".Mail"),
+		Note:  g.canary(g.treatFor("", false), where+".Note"),
+		Title: g.canary("keep", where+".Title"),
+	}
+	if depth > 0 {
+		d.Parent = &encEdge{Dept: g.dept(where+".Parent.Dept", depth-1), Weight: depth}
+	}
+	return d
+}
+
 // payload builds one top-level payload; kind names the top-level shape.
 func (g *encGen) payload(kind int, depth int) (interface{}, string) {
 	switch kind {
@@ -804,6 +837,8 @@ func (g *encGen) payload(kind int, depth int) (interface{}, string) {
 	case 18:
 		t := g.tagMap("ptagmap")
 		return &t, "*taggable-map"
+	case 24:
+		return &encReport{Root: g.dept("*report.Root", 1+g.d.next(3)), N: 3}, "*struct(mutually-recursive-types)"
 	case 23:
 		return g.tagMap2("tagmap2"), "taggable-map(deep-tags)"
 	case 22:
@@ -1141,6 +1176,10 @@ func runEncrypt(rc *RunCtx, prop string) {
 	if withIgnored {
 		f.IgnoreTypes = []reflect.Type{reflect.TypeOf(&encIgnored{})}
 	}
+	if prop == "C16" && tp.Choose(3, "ignore-rotation-type") == 0 {
+		// IgnoreTypes exempts values from FILTERING; a rotation payload of a listed type is still a rotation
+		f.IgnoreTypes = append(f.IgnoreTypes, reflect.TypeOf(&encRotate{}))
+	}
 	versions := []*keyVersion{kv}
 	cur := kv
 	nEvents := 1 + tp.Choose(3, "nevents")
@@ -1194,7 +1233,7 @@ func runEncrypt(rc *RunCtx, prop string) {
 			d := &drawRec{tape: tp}
 			fill := []int{15, 40, 80}[tp.Choose(3, "fill")]
 			g := &encGen{d: d, exp: map[string]*leafExp{}, overrides: overrides, fill: fill, withIgnored: withIgnored}
-			kind := tp.Choose(24, "kind")
+			kind := tp.Choose(25, "kind")
 			depth := tp.Choose(3, "depth")
 			var payload interface{}
 			var top string
@@ -1551,13 +1590,24 @@ func runEncryptShared(rc *RunCtx) {
 	snapshot, _ := g2.payload(kind, 1)
 	b, _ := el.NewBroker()
 	nPipes := 2 + tp.Choose(2, "npipes")
+	// one filter NODE may serve all the pipelines (a node can be listed by several pipelines):
+	// every traversal still gets a private copy of its own
+	oneFilter := tp.Choose(2, "one-filter-node") == 0
+	if oneFilter {
+		b.RegisterNode("enc-shared", &encrypt.Filter{Wrapper: kv.w})
+	}
 	var sinks []*keepNode
 	for i := 0; i < nPipes; i++ {
 		k := &keepNode{kind: el.NodeTypeSink}
 		sinks = append(sinks, k)
 		ids := []el.NodeID{el.NodeID(fmt.Sprintf("pass%d", i)), el.NodeID(fmt.Sprintf("enc%d", i)), el.NodeID(fmt.Sprintf("fmt%d", i)), el.NodeID(fmt.Sprintf("sink%d", i))}
+		if oneFilter {
+			ids[1] = "enc-shared"
+		}
 		b.RegisterNode(ids[0], &passNode{el.NodeTypeFilter})
-		b.RegisterNode(ids[1], &encrypt.Filter{Wrapper: kv.w})
+		if !oneFilter {
+			b.RegisterNode(ids[1], &encrypt.Filter{Wrapper: kv.w})
+		}
 		b.RegisterNode(ids[2], &passNode{el.NodeTypeFormatter})
 		b.RegisterNode(ids[3], k)
 		b.RegisterPipeline(el.Pipeline{PipelineID: el.PipelineID(fmt.Sprintf("p%d", i)), EventType: "t", NodeIDs: ids})
